@@ -216,6 +216,53 @@ Section Knn.
   Definition hot_find (hs : hot) (id : N) : option hentry := find (fun e => (h_id e =? id)%N) hs.
   Definition hot_remove (hs : hot) (id : N) : hot := filter (fun e => negb (h_id e =? id)%N) hs.
 
+  (* ------------------------------------------------------------ writes (what creates and removes mirrors)
+     HnswBackend::insert as far as tokens are concerned: the previous live slot of the id is tombstoned, a new
+     slot is appended with version = previous version + 1 (1 after a delete or for a new id) and the digest of
+     the vector.  `accept = false`: the cold tier refused the write (index full, non-finite, ...): no change. *)
+  Definition tombstone (id : N) (sl : cslot) : cslot :=
+    if ext_is id sl then mk_cslot None (cs_vec sl) (cs_ver sl) (cs_dg sl) else sl.
+  Definition next_version (s : cstore) (id : N) : N :=
+    match cold_slot s id with Some sl => (cs_ver sl + 1)%N | None => 1%N end.
+  Definition cold_insert (s : cstore) (id : N) (v : vec) : cstore :=
+    map (tombstone id) s ++ [mk_cslot (Some id) v (next_version s id) (digest v)].
+  Definition cold_delete (s : cstore) (id : N) : cstore := map (tombstone id) s.
+
+  Inductive wop : Type :=
+  | WInsert (id : N) (v : vec) (accept : bool)        (* TieredEngine::insert *)
+  | WDelete (id : N)                                   (* TieredEngine::delete *)
+  | WBulkLoad (docs : list (N * vec * bool))           (* bulk_load_cold_tier: (id, vector, accepted) *)
+  | WFlush                                             (* flush_hot_tier(force) / emergency drain *)
+  | WCompact                                           (* compact_tombstones (inside a cold insert) *)
+  | WDiscard (ids : list N).                           (* mirrors removed by a search / audit (they only remove) *)
+
+  Definition hot_remove_all (hs : hot) (ids : list N) : hot :=
+    filter (fun e => negb (existsb (fun i => (h_id e =? i)%N) ids)) hs.
+
+  Definition wstep (e : engine) (o : wop) : engine :=
+    let s := e_cold e in
+    let hs := e_hot e in
+    match o with
+    | WInsert id v true =>
+        (* cold_tier.insert, then hot_tier.insert_with_coherence(id, v, current_coherence_token(id)) *)
+        let s' := cold_insert s id v in
+        mk_engine s' (hot_remove hs id ++ [mk_hentry id v (next_version s id) (digest v)])
+    | WInsert _ _ false => e
+    | WDelete id => mk_engine (cold_delete s id) (hot_remove hs id)
+    | WBulkLoad docs =>
+        (* per-document cold insert; then invalidate_caches_after_bulk_load drops the mirrors of EVERY
+           loaded id (repo commit b64dfda; before it the mirrors stayed, with outdated tokens) *)
+        let s' := fold_left (fun acc d => match d with (id, v, true) => cold_insert acc id v | _ => acc end) docs s in
+        mk_engine s' (hot_remove_all hs (map (fun d => fst (fst d)) docs))
+    | WFlush =>
+        (* drain: a mirror without canonical record is written back to the cold tier; all mirrors evicted *)
+        let s' := fold_left (fun acc h => if cold_exists acc (h_id h) then acc else cold_insert acc (h_id h) (h_vec h)) hs s in
+        mk_engine s' []
+    | WCompact => mk_engine (filter is_live s) hs
+    | WDiscard ids => mk_engine s (hot_remove_all hs ids)
+    end.
+  Definition wrun (e : engine) (ops : list wop) : engine := fold_left wstep ops e.
+
   (* filter_hot_knn_results_to_canonical: per candidate peek the mirror, compare tokens, discard stale
      mirrors from the hot tier as a side effect *)
   Definition filter_hot_step (s : cstore) (st : list res * hot) (r : res) : list res * hot :=
@@ -444,6 +491,12 @@ Arguments ext_is {vec dg} id sl. Arguments cold_slot {vec dg} s id.
 Arguments cold_token {vec dg} s id. Arguments cold_exists {vec dg} s id.
 Arguments canonical_vector_state {vec dg} digest dg_eqb s e.
 Arguments hot_find {vec dg} hs id. Arguments hot_remove {vec dg} hs id.
+Arguments tombstone {vec dg} id sl. Arguments next_version {vec dg} s id.
+Arguments cold_insert {vec dg} digest s id v. Arguments cold_delete {vec dg} s id.
+Arguments WInsert {vec} id v accept. Arguments WDelete {vec} id. Arguments WBulkLoad {vec} docs.
+Arguments WFlush {vec}. Arguments WCompact {vec}. Arguments WDiscard {vec} ids.
+Arguments hot_remove_all {vec dg} hs ids.
+Arguments wstep {vec dg} digest e o. Arguments wrun {vec dg} digest e ops.
 Arguments filter_hot_step {vec dist dg} digest dg_eqb s st r.
 Arguments filter_hot {vec dist dg} digest dg_eqb s hs rs.
 Arguments map_insert {dist} i d m. Arguments map_or_insert {dist} i d m.
